@@ -61,6 +61,22 @@ def render_source(sc, src):
     return s
 
 
+def eph_classifier(spec):
+    """(topic, origin) -> does this delivered frame come through an ephemeral source entry? A consumer may be attached to
+    one publisher twice (synchronized and ephemeral): then the delivered topic name decides, otherwise the origin."""
+    srcs = spec.get('sources') or []
+    eph_topics = set()
+    eph_only = set()
+    sync_from = {s['from'] for s in srcs if not s.get('eph')}
+    for s in srcs:
+        if s.get('eph'):
+            if isinstance(s.get('sub'), list):
+                eph_topics.update(b for a, b in s['sub'])
+            if s['from'] not in sync_from:
+                eph_only.add(s['from'])
+    return lambda topic, origin: topic in eph_topics or origin in eph_only
+
+
 def selected_topics(sub, pub_topics):
     """{published topic: delivered name} a subscription selects from a published topic list."""
     if sub is None:
@@ -225,11 +241,11 @@ def sim_filter_class():
                 sched.sleep_ns(max(d, w.min_cpu_ns), 'process')
                 rs = set()
                 key = None
-                eph_from = st.proc.data.get('eph_from')
-                if eph_from is None:
-                    eph_from = st.proc.data['eph_from'] = {s['from'] for s in spec.get('sources') or [] if s.get('eph')}
-                for fd in desc.values():
-                    if fd['r'] and fd['o'] not in eph_from:      # provenance follows the synchronized stream only
+                is_eph = st.proc.data.get('is_eph')
+                if is_eph is None:
+                    is_eph = st.proc.data['is_eph'] = eph_classifier(spec)
+                for t, fd in desc.items():
+                    if fd['r'] and not is_eph(t, fd['o']):      # provenance follows the synchronized stream only
                         rs.update(fd['r'])
                 roots = sorted(rs, key=_root_key)
                 key = _root_key(roots[0])[2] if roots else k
